@@ -1,7 +1,7 @@
 \* liveness under fairness, no state constraint: expiry happens, shutdown reclaims everything
 SPECIFICATION LiveSpec
 CONSTANTS
-  Clients = {1}
+  Clients = {1, 2}
   IPOf <- MCIPOf
   Keys = {1, 2}
   InitList <- MCInitList
@@ -11,7 +11,7 @@ CONSTANTS
   DnsPort = {2, 6}
   Allowed = {1, 2}
   Fam <- MCFam
-  DgAlpha <- DgLong
+  DgAlpha <- DgC14
   RpAlpha <- RpC14
   Sync = FALSE
   T = 2
